@@ -78,6 +78,46 @@ pub fn star(r: &mut Rng) -> Graph {
     g
 }
 
+/// gadget farm: 2-3 target spiders (each on a boundary), 2-5 phase gadgets whose hubs attach to target subsets drawn from a small pool (so
+/// that several gadgets share a target set), now and then a hub that is itself a target of other hubs
+pub fn gadget_farm(r: &mut Rng) -> Graph {
+    let mut g = Graph::new();
+    let nt = 2 + r.below(2) as usize;
+    let (mut ins, mut outs) = (vec![], vec![]);
+    let targets: Vec<V> = (0..nt).map(|k| { let t = g.add_vertex_with_phase(VType::Z, Rational64::new(r.below(2) as i64, 1)); let b = g.add_vertex(VType::B); g.add_edge_with_type(t, b, EType::N); if k % 2 == 0 { ins.push(b) } else { outs.push(b) } t }).collect();
+    let pool: Vec<u32> = (0..2).map(|_| 1 + r.below((1 << nt) - 1) as u32).collect();
+    let mut hubs = vec![];
+    for _ in 0..2 + r.below(4) {
+        let hub = g.add_vertex(VType::Z);
+        let leaf = g.add_vertex_with_phase(VType::Z, Rational64::new([1, 3, 5, 7, 2][r.below(5) as usize], 4));
+        g.add_edge_with_type(hub, leaf, EType::H);
+        let mask = pool[r.below(2) as usize];
+        for (k, &t) in targets.iter().enumerate() { if mask >> k & 1 == 1 { g.add_edge_with_type(hub, t, EType::H); } }
+        hubs.push(hub);
+    }
+    // hubs of hubs
+    if r.below(3) == 0 && hubs.len() >= 2 {
+        for _ in 0..2 { let hub = g.add_vertex(VType::Z); let leaf = g.add_vertex_with_phase(VType::Z, Rational64::new(1, 4)); g.add_edge_with_type(hub, leaf, EType::H); for &h in hubs.iter().take(2) { g.add_edge_with_type(hub, h, EType::H); } }
+    }
+    g.set_inputs(ins); g.set_outputs(outs);
+    g
+}
+/// every one- and two-spider scalar diagram over the phases k pi/4: colours, wire type, all 8 x 8 phase pairs
+pub fn scalar_pieces() -> Vec<Graph> {
+    let mut out = vec![];
+    let tys = [VType::Z, VType::X];
+    for &t0 in &tys { for p0 in 0..8i64 {
+        let mut g = Graph::new(); g.add_vertex_with_phase(t0, Rational64::new(p0, 4)); out.push(g);
+        for &t1 in &tys { for et in [EType::N, EType::H] { for p1 in 0..8i64 {
+            let mut g = Graph::new();
+            let a = g.add_vertex_with_phase(t0, Rational64::new(p0, 4)); let b = g.add_vertex_with_phase(t1, Rational64::new(p1, 4));
+            g.add_edge_with_type(a, b, et);
+            out.push(g);
+        } } }
+    } }
+    out
+}
+
 pub fn same_map(a: &Graph, b: &Graph) -> Result<(), String> {
     let (ta, tb) = (guard(|| a.to_tensor4())?, guard(|| b.to_tensor4())?);
     if ta == tb { Ok(()) } else { Err(format!("the exact tensor changed: {:?} became {:?}", ta.iter().take(8).collect::<Vec<_>>(), tb.iter().take(8).collect::<Vec<_>>())) }
@@ -94,9 +134,10 @@ pub fn describe(g: &Graph) -> String {
 
 pub fn run(cx: &mut Ctx) {
     let seed: u64 = std::env::var("VERIF_SEED").ok().and_then(|s| s.parse().ok()).unwrap_or(0);
-    let ndiag = 180 * crate::scale();
+    let ndiag = 200 * crate::scale();
     let mut r = Rng(0x5eed_c04 ^ seed.wrapping_mul(0x9e3779b97f4a7c15));
-    let diagrams: Vec<Graph> = (0..ndiag).map(|k| if k % 3 == 2 { star(&mut r) } else { diagram(&mut r, k % 3 == 1) }).collect();
+    let mut diagrams: Vec<Graph> = (0..ndiag).map(|k| match k % 4 { 2 => star(&mut r), 3 => gadget_farm(&mut r), _ => diagram(&mut r, k % 4 == 1) }).collect();
+    diagrams.extend(scalar_pieces());
     let rules1: Vec<M1> = vec![
         ("pi_copy", |g, v| check_pi_copy(g, v), |g, v| pi_copy(g, v), |g, v| pi_copy_unchecked(g, v)),
         ("remove_id", |g, v| check_remove_id(g, v), |g, v| remove_id(g, v), |g, v| remove_id_unchecked(g, v)),
